@@ -1540,3 +1540,652 @@ Proof.
     rewrite Hp' in H2. cbn [bind] in H2. congruence.
 Qed.
 End Sensitive.
+
+(* ---- decimal integers ---- *)
+Definition s2z (s : string) : option Z := option_map Z.of_int (NilZero.int_of_string s).
+Lemma s2z_z2s z : s2z (z2s z) = Some z.
+Proof.
+  unfold s2z, z2s. rewrite NilZero.isi.
+  - cbn. rewrite DecimalZ.of_to. reflexivity.
+  - destruct z as [|p|p]; cbn; try discriminate.
+    intros H. injection H as H. exact (DecimalPos.Unsigned.to_uint_nonnil p H).
+  - destruct z as [|p|p]; cbn; try discriminate.
+    intros H. injection H as H. exact (DecimalPos.Unsigned.to_uint_nonnil p H).
+Qed.
+Lemma z2s_inj a b : z2s a = z2s b -> a = b.
+Proof. intros H. apply (f_equal s2z) in H. rewrite !s2z_z2s in H. congruence. Qed.
+Lemma uint_str_head d : exists c r, NilZero.string_of_uint d = String c r /\ c <> "<"%char.
+Proof.
+  destruct d; cbn; eexists; eexists; (split; [reflexivity|discriminate]).
+Qed.
+Lemma z2s_not_null z : z2s z <> NULL.
+Proof.
+  unfold z2s, NULL. destruct z as [|p|p]; cbn [Z.to_int NilZero.string_of_int].
+  - discriminate.
+  - destruct (uint_str_head (Pos.to_uint p)) as (c & r & -> & Hc). intros H. injection H as H _. congruence.
+  - discriminate.
+Qed.
+Lemma b2s_inj a b : b2s a = b2s b -> a = b.
+Proof. destruct a, b; cbn; intros H; try reflexivity; discriminate. Qed.
+
+Lemma prim_scell ff h d v v' : float_contract ff -> prim_differs v v' ->
+  exists c c', scell ff h d v = Some c /\ scell ff h d v' = Some c' /\ c <> c'.
+Proof.
+  intros (Fi & Fn) P. destruct v, v'; cbn in P; try contradiction; cbn [scell]; eexists; eexists; (split; [reflexivity|]); (split; [reflexivity|]).
+  - intros H. symmetry in H. exact (z2s_not_null _ H).
+  - intros H. symmetry in H. exact (Fn _ H).
+  - destruct b; discriminate.
+  - congruence.
+  - apply z2s_not_null.
+  - intros H. apply z2s_inj in H. contradiction.
+  - apply Fn.
+  - intros H. apply Fi in H. contradiction.
+  - destruct b; discriminate.
+  - intros H. apply b2s_inj in H. contradiction.
+  - exact P.
+  - exact P.
+Qed.
+
+(* C20 render_sensitive (primitive value): changing one primitive value of one listed structure changes the rows *)
+Theorem sensitive_primitive hash sort ff rs o s vs h found x f ti n v' R :
+  sort_contract sort -> float_contract ff ->
+  unique_offsets_per_type h found = true ->
+  In x found -> hget h x = Some f -> sch_find s (o_type f) = Some ti ->
+  memb (o_type f) (op_exclude o) = false -> is_array_name (o_type f) = false ->
+  not_offset_name n -> In n (map fd_name (feats_sorted ti)) ->
+  prim_differs (slot f n) v' ->
+  rows_of hash sort ff rs o s vs h found = Ok R ->
+  rows_of hash sort ff rs o s vs (hset h x (set_slot f n v')) found <> Ok R.
+Proof.
+  intros C F U Hx Ho Hti Hex Harr Hn Hin P HR.
+  destruct (rows_of_inv hash sort ff rs _ _ _ _ _ _ HR) as (items & ls & d & bl & R0 & L & A & _).
+  assert (anchor_dict hash sort o s vs h found = Ok d) as AD by (unfold anchor_dict; rewrite R0; cbn [bind]; rewrite L; exact A).
+  destruct (prim_scell ff h d _ _ F P) as (c & c' & S1 & S2 & Hne).
+  eapply sensitive_feature; eauto.
+Qed.
+
+(* C20 render_sensitive (reference target): redirecting one reference of one listed structure to a structure with another
+   anchor changes the rows *)
+Theorem sensitive_reference hash sort ff rs o s vs h found x f ti n p q fp fq d ap aq R :
+  sort_contract sort ->
+  unique_offsets_per_type h found = true ->
+  In x found -> hget h x = Some f -> sch_find s (o_type f) = Some ti ->
+  memb (o_type f) (op_exclude o) = false -> is_array_name (o_type f) = false ->
+  not_offset_name n -> In n (map fd_name (feats_sorted ti)) ->
+  slot f n = VRef p -> hget h p = Some fp -> hget h q = Some fq ->
+  is_array_name (o_type fp) = false -> is_array_name (o_type fq) = false ->
+  anchor_dict hash sort o s vs h found = Ok d ->
+  dget (o_id fp) d = Some ap -> dget (o_id fq) d = Some aq -> ap <> aq ->
+  rows_of hash sort ff rs o s vs h found = Ok R ->
+  rows_of hash sort ff rs o s vs (hset h x (set_slot f n (VRef q))) found <> Ok R.
+Proof.
+  intros C U Hx Ho Hti Hex Harr Hn Hin Sp Hp Hq Ap Aq AD Dp Dq Hne HR.
+  eapply (sensitive_feature hash sort ff rs C o s vs h found x f ti n (VRef q) d ap aq); eauto.
+  - rewrite Sp. cbn [scell]. rewrite Hp, Ap, Dp. reflexivity.
+  - cbn [scell]. rewrite Hq, Aq, Dq. reflexivity.
+Qed.
+
+(* ================================================================================================ I.3 the anchor of a listed structure *)
+Definition sfx_ok (sfx : string) : Prop := sfx = "" \/ exists n, sfx = "(" +++ z2s n +++ ")".
+Lemma append_nil_r s : s +++ "" = s.
+Proof. induction s as [|c s IH]; cbn; [reflexivity|]. rewrite IH. reflexivity. Qed.
+
+Lemma assign_In dis pre it a : In (it, a) (assign dis pre) -> exists p sfx, In (it, p) pre /\ a = p +++ sfx /\ sfx_ok sfx.
+Proof.
+  revert dis. induction pre as [|[it0 p0] pre IH]; intros dis; cbn [assign]; [contradiction|].
+  intros [E|H].
+  - injection E as <- <-. exists p0. unfold with_count. destruct (count_of p0 dis =? 0).
+    + exists "". rewrite append_nil_r. split; [left; reflexivity|]. split; [reflexivity|left; reflexivity].
+    + eexists. split; [left; reflexivity|]. split; [reflexivity|]. right. eexists. reflexivity.
+  - destruct (IH _ H) as (p & sfx & Hin & E & S). exists p, sfx. split; [right; exact Hin|]. auto.
+Qed.
+Lemma assign_fst dis pre : map fst (assign dis pre) = map fst pre.
+Proof. revert dis. induction pre as [|[it0 p0] pre IH]; intros dis; cbn; [reflexivity|]. rewrite IH. reflexivity. Qed.
+
+Lemma opt_eqb_eq k k' : opt_eqb Z.eqb k k' = true <-> k = k'.
+Proof.
+  destruct k as [a|], k' as [b|]; cbn; split; intros H; try discriminate; try reflexivity.
+  - apply Z.eqb_eq in H. congruence.
+  - injection H as ->. apply Z.eqb_refl.
+Qed.
+
+(* the dict answers with one of the entries stored under the key *)
+Lemma dget_snoc k d e : dget k (d ++ [e]) = if opt_eqb Z.eqb k (fst e) then Some (snd e) else dget k d.
+Proof. unfold dget. rewrite fold_left_app. reflexivity. Qed.
+Lemma dget_some k d : (exists a, In (k, a) d) -> exists a, dget k d = Some a /\ In (k, a) d.
+Proof.
+  induction d as [|[k' a'] d IH] using rev_ind; intros (a0 & H0); [contradiction|].
+  rewrite dget_snoc. cbn [fst snd]. destruct (opt_eqb Z.eqb k k') eqn:E.
+  - apply opt_eqb_eq in E. subst k'. exists a'. split; [reflexivity|]. apply in_or_app. right. left. reflexivity.
+  - apply in_app_or in H0 as [H0|[E0|[]]].
+    + destruct IH as (a & Ha & Hin); [eauto|]. exists a. split; [exact Ha|]. apply in_or_app. left. exact Hin.
+    + injection E0 as -> _. rewrite (proj2 (opt_eqb_eq k k) eq_refl) in E. discriminate.
+Qed.
+
+Lemma anchors_entry o idx ls d k a : anchors o idx ls = Ok d -> In (k, a) d ->
+  exists it p sfx, In it (flat_map snd ls) /\ anchor_prefix (op_mark o) idx it = Ok p /\ k = o_id (snd it) /\
+                   a = p +++ sfx /\ sfx_ok sfx.
+Proof.
+  unfold anchors. intros H Hin. apply bind_ok in H as (pre & Hpre & H). injection H as <-.
+  unfold dict_of in Hin. apply in_map_iff in Hin as ([it a'] & E & Hin). cbn in E. injection E as <- <-.
+  destruct (assign_In _ _ _ _ Hin) as (p & sfx & Hp & Ea & S).
+  destruct (mapM_In_inv _ _ _ _ Hpre Hp) as (it' & Hit' & Hf). apply bind_ok in Hf as (p' & Hp' & Hf). injection Hf as <- <-.
+  exists it', p', sfx. auto.
+Qed.
+Lemma anchors_has o idx ls d it : anchors o idx ls = Ok d -> In it (flat_map snd ls) -> exists a, In (o_id (snd it), a) d.
+Proof.
+  unfold anchors. intros H Hin. apply bind_ok in H as (pre & Hpre & H). injection H as <-.
+  destruct (mapM_In _ _ _ _ Hpre Hin) as (y & Hy & Hiny). apply bind_ok in Hy as (p & _ & Hy). injection Hy as <-.
+  assert (In it (map fst (assign [] pre))) as Hf by (rewrite assign_fst; apply in_map_iff; exists (it, p); auto).
+  apply in_map_iff in Hf as ([it' a] & E & Hin'). cbn in E. subst it'. exists a. unfold dict_of.
+  apply in_map_iff. exists (it, a). auto.
+Qed.
+
+(* the anchor of a listed structure whose id no other listed structure carries: its prefix, possibly with a counter *)
+Lemma anchor_of o idx ls d it P :
+  anchors o idx ls = Ok d -> In it (flat_map snd ls) ->
+  (forall it', In it' (flat_map snd ls) -> o_id (snd it') = o_id (snd it) -> it' = it) ->
+  anchor_prefix (op_mark o) idx it = Ok P ->
+  exists sfx, sfx_ok sfx /\ dget (o_id (snd it)) d = Some (P +++ sfx).
+Proof.
+  intros A Hin Uid HP. destruct (dget_some (o_id (snd it)) d (anchors_has _ _ _ _ _ A Hin)) as (a & Ha & Hina).
+  destruct (anchors_entry _ _ _ _ _ _ A Hina) as (it' & p & sfx & Hit' & Hp & Ek & Ea & S).
+  rewrite (Uid it' Hit' (eq_sym Ek)) in Hp. rewrite HP in Hp. injection Hp as <-. exists sfx. split; [exact S|]. congruence.
+Qed.
+
+Lemma render_fs_head ff rs vs h d ti isann it r : render_fs ff rs vs h d ti isann it = Ok r ->
+  exists tl, r = cell ff rs (anchor_pv (dget (o_id (snd it)) d)) :: tl.
+Proof.
+  unfold render_fs. intros H. apply bind_ok in H as (ct & _ & H). destruct (is_array_name (o_type (snd it))).
+  - apply bind_ok in H as (p & _ & H). injection H as <-. eauto.
+  - apply bind_ok in H as (cs & _ & H). injection H as <-. eauto.
+Qed.
+Lemma combine_same {A} (l : list A) x : In x l -> In (x, x) (combine l l).
+Proof. induction l as [|a l IH]; cbn; [contradiction|]. intros [<-|H]; [left; reflexivity|right; apply IH; exact H]. Qed.
+Lemma Forall2_refl {A} (P : A -> A -> Prop) l : (forall x, P x x) -> Forall2 P l l.
+Proof. intros H. induction l; constructor; auto. Qed.
+
+Lemma paren_split n n' sfx sfx' : paren_free n = true -> paren_free n' = true -> sfx_ok sfx -> sfx_ok sfx' ->
+  n +++ sfx = n' +++ sfx' -> n = n'.
+Proof.
+  revert n'. induction n as [|c n IH]; intros [|c' n'] Pn Pn' S S' E; cbn in *.
+  - reflexivity.
+  - exfalso. apply andb_true_iff in Pn' as [Hc _]. destruct S as [->|(k & ->)]; [discriminate|].
+    cbn in E. injection E as <- _. cbn in Hc. discriminate.
+  - exfalso. apply andb_true_iff in Pn as [Hc _]. destruct S' as [->|(k & ->)]; [discriminate|].
+    cbn in E. injection E as -> _. cbn in Hc. discriminate.
+  - injection E as -> E. apply andb_true_iff in Pn as [_ Pn]. apply andb_true_iff in Pn' as [_ Pn'].
+    f_equal. eapply IH; eauto.
+Qed.
+
+(* ================================================================================================ I.4 view and index status *)
+Section Sensitive2.
+Variable hash : tname -> fsobj -> Z.
+Variable sort : (item -> item -> Z) -> list item -> list item.
+Variable ff : flt -> string.
+Variable rs : string -> string.
+Hypothesis sort_ok : sort_contract sort.
+
+Lemma listing_items s items ls b it : listing hash sort s items = Ok ls -> In b ls -> In it (snd b) -> In it items.
+Proof.
+  intros L Hb Hit. destruct (listing_blocks hash sort s items ls b L Hb) as (_ & _ & E). rewrite E in Hit.
+  destruct sort_ok as (SP & _). eapply Permutation_in in Hit; [|apply SP]. apply filter_In in Hit. tauto.
+Qed.
+
+(* no other listed structure carries the xmi:id of x (Cas._find_all_fs refuses such a CAS) *)
+Definition id_unshared (h : heap) (found : list oid) (x : oid) (f : fsobj) : Prop :=
+  forall y fy, In y found -> hget h y = Some fy -> o_id fy = o_id f -> y = x.
+
+Lemma found_item h found items x f : resolve h found = Ok items -> In x found -> hget h x = Some f -> In (x, f) items.
+Proof.
+  intros Ri Hx Ho. destruct (resolve_spec _ _ _ Ri) as [Hf Hh]. rewrite <- Hf in Hx. apply in_map_iff in Hx as ([y fy] & E & Hy).
+  cbn in E. subst y. specialize (Hh _ Hy). cbn in Hh. rewrite Ho in Hh. injection Hh as <-. exact Hy.
+Qed.
+Lemma unshared_items h found items s ls x f : resolve h found = Ok items -> listing hash sort s items = Ok ls ->
+  hget h x = Some f -> id_unshared h found x f ->
+  forall it', In it' (flat_map snd ls) -> o_id (snd it') = o_id f -> it' = (x, f).
+Proof.
+  intros Ri L Ho Un it' Hin E. apply in_flat_map in Hin as (b & Hb & Hin). pose proof (listing_items _ _ _ _ _ L Hb Hin) as Hit.
+  destruct (resolve_spec _ _ _ Ri) as [Hf Hh]. pose proof (Hh _ Hit) as H1.
+  assert (In (fst it') found) as Hfo by (rewrite <- Hf; apply in_map; exact Hit).
+  pose proof (Un _ _ Hfo H1 E) as Ex. destruct it' as [y fy]. cbn in *. subst y. rewrite Ho in H1. congruence.
+Qed.
+
+(* C20 render_sensitive (view): giving a listed structure the sofa of another view changes the rows *)
+Theorem sensitive_view o s vs h found x f n n' R :
+  unique_offsets_per_type h found = true ->
+  In x found -> hget h x = Some f -> memb (o_type f) (op_exclude o) = false ->
+  id_unshared h found x f ->
+  slot f "sofa" = VSofa n -> n <> n' -> paren_free n = true -> paren_free n' = true ->
+  rows_of hash sort ff rs o s vs h found = Ok R ->
+  rows_of hash sort ff rs o s vs (hset h x (set_slot f "sofa" (VSofa n'))) found <> Ok R.
+Proof.
+  intros U Hx Ho Hex Un Sn Hne Pn Pn' HR HR'.
+  set (g := fun f0 => set_slot f0 "sofa" (VSofa n')).
+  change (set_slot f "sofa" (VSofa n')) with (g f) in HR'.
+  assert (Gt : forall f0, o_type (g f0) = o_type f0) by reflexivity.
+  assert (Gi : forall f0, o_id (g f0) = o_id f0) by reflexivity.
+  assert (Gs : forall f0 m, m <> "sofa" -> slot (g f0) m = slot f0 m).
+  { intros f0 m Hm. unfold g. rewrite slot_set. apply String.eqb_neq in Hm. rewrite Hm. reflexivity. }
+  assert (Go : forall f0, offs (g f0) = offs f0) by (intros f0; unfold offs; rewrite !Gs by discriminate; reflexivity).
+  destruct (unique_offsets_inv _ _ U) as (items & Ri & K).
+  destruct (rows_of_inv hash sort ff rs _ _ _ _ _ _ HR) as (items0 & ls & d & bl & R0 & L & A & B & ER).
+  rewrite Ri in R0. injection R0 as <-.
+  destruct (rows_of_inv hash sort ff rs _ _ _ _ _ _ HR') as (items' & ls' & d' & bl' & R1 & L' & A' & B' & ER').
+  rewrite (resolve_hset_with h x f g found Ho), Ri in R1. cbn [rmap] in R1. injection R1 as <-.
+  set (upd := upd_with g x) in *.
+  assert (Uf : forall it, fst (upd it) = fst it) by (intros; apply upd_with_fst).
+  assert (Ut : forall it, o_type (snd (upd it)) = o_type (snd it)) by (intros; apply (upd_with_pres o_type); exact Gt).
+  assert (Uk : forall it, offs (snd (upd it)) = offs (snd it)) by (intros; apply (upd_with_pres offs); exact Go).
+  rewrite (listing_upd upd Uf Ut hash sort sort_ok Uk) in L' by (intros t; eapply uniq_group; eauto).
+  rewrite L in L'. cbn [rmap] in L'. injection L' as <-.
+  pose proof (found_item _ _ _ _ _ Ri Hx Ho) as Hit.
+  destruct (listing_has hash sort s items ls (x, f) sort_ok L Hit) as (b & Hb & Hfb & Hib).
+  assert (Eu : upd (x, f) = (x, g f)) by (unfold upd, upd_with; cbn; rewrite N.eqb_refl; reflexivity).
+  destruct (equal_rows_blocks ff rs o s vs h d vs (hset h x (g f)) d' ls (map (upd_block upd) ls) bl bl' b (upd_block upd b)) as (rr & M & M').
+  - apply Forall2_map_r. intros b0. split; [reflexivity|]. cbn. rewrite map_length. reflexivity.
+  - exact B.
+  - exact B'.
+  - congruence.
+  - apply combine_map_r. exact Hb.
+  - apply sch_find_name in Hfb. unfold ty in Hfb. cbn [snd] in Hfb. rewrite Hfb. exact Hex.
+  - cbn [snd upd_block] in M'. rewrite mapM_map in M'.
+    destruct (mapM_same _ _ _ _ _ M M' Hib) as (r & Hr & Hr'). rewrite Eu in Hr'.
+    apply render_fs_head in Hr as (tl & ->). apply render_fs_head in Hr' as (tl' & E). cbn [snd] in E. injection E as E _.
+    assert (In (x, f) (flat_map snd ls)) as Hfl by (apply in_flat_map; eauto).
+    pose proof (unshared_items _ _ _ _ _ _ _ Ri L Ho Un) as Uid.
+    set (base := short_name (o_type f)
+                 +++ (match offs f with
+                      | Some _ => "[" +++ int_str (slot f "begin") +++ "-" +++ int_str (slot f "end") +++ "]"
+                      | None => "" end)
+                 +++ (if op_mark o && memN x (flat_map v_members vs) then "*" else "")).
+    destruct (anchor_of o _ ls d (x, f) (short_name (o_type f)
+                 +++ (match offs f with
+                      | Some _ => "[" +++ int_str (slot f "begin") +++ "-" +++ int_str (slot f "end") +++ "]"
+                      | None => "" end)
+                 +++ (if op_mark o && memN x (flat_map v_members vs) then "*" else "") +++ "@" +++ n) A Hfl) as (sfx & S & D).
+    { intros it' H1 H2. apply Uid; assumption. }
+    { unfold anchor_prefix, view_of. cbn [fst snd]. rewrite Sn. reflexivity. }
+    destruct (anchor_of o _ (map (upd_block upd) ls) d' (x, g f) (short_name (o_type f)
+                 +++ (match offs f with
+                      | Some _ => "[" +++ int_str (slot f "begin") +++ "-" +++ int_str (slot f "end") +++ "]"
+                      | None => "" end)
+                 +++ (if op_mark o && memN x (flat_map v_members vs) then "*" else "") +++ "@" +++ n') A') as (sfx' & S' & D').
+    { rewrite flat_map_upd. rewrite <- Eu. apply in_map. exact Hfl. }
+    { intros it'' H1 H2. rewrite flat_map_upd in H1. apply in_map_iff in H1 as (it' & <- & H1).
+      pose proof (upd_with_pres o_id g x it' Gi) as Hq. fold upd in Hq. rewrite Hq in H2.
+      cbn [snd] in H2. rewrite (Uid it' H1 H2). exact Eu. }
+    { unfold anchor_prefix, view_of. cbn [fst snd]. rewrite Gt, Go, (Gs f "begin"), (Gs f "end") by discriminate.
+      unfold g. rewrite slot_set. cbn [String.eqb Ascii.eqb Bool.eqb]. reflexivity. }
+    cbn [snd] in D, D'. change (o_id (g f)) with (o_id f) in D'. rewrite D, D' in E. cbn [anchor_pv cell] in E.
+    rewrite !append_assoc in E. apply append_inv_head in E. apply append_inv_head in E.
+    apply append_inv_head in E. cbn [String.append] in E. injection E as E.
+    apply Hne. exact (paren_split n n' sfx sfx' Pn Pn' S S' E).
+Qed.
+
+(* C20 render_sensitive (index status): indexing or un-indexing one listed structure changes the rows *)
+Theorem sensitive_index o s vs vs' h found x f R :
+  unique_offsets_per_type h found = true ->
+  In x found -> hget h x = Some f -> memb (o_type f) (op_exclude o) = false ->
+  id_unshared h found x f -> op_mark o = true ->
+  memN x (flat_map v_members vs) = true -> memN x (flat_map v_members vs') = false ->
+  rows_of hash sort ff rs o s vs h found = Ok R ->
+  rows_of hash sort ff rs o s vs' h found <> Ok R.
+Proof.
+  intros U Hx Ho Hex Un Mk M1 M2 HR HR'.
+  destruct (unique_offsets_inv _ _ U) as (items & Ri & K).
+  destruct (rows_of_inv hash sort ff rs _ _ _ _ _ _ HR) as (items0 & ls & d & bl & R0 & L & A & B & ER).
+  rewrite Ri in R0. injection R0 as <-.
+  destruct (rows_of_inv hash sort ff rs _ _ _ _ _ _ HR') as (items' & ls' & d' & bl' & R1 & L' & A' & B' & ER').
+  rewrite Ri in R1. injection R1 as <-. rewrite L in L'. injection L' as <-.
+  pose proof (found_item _ _ _ _ _ Ri Hx Ho) as Hit.
+  destruct (listing_has hash sort s items ls (x, f) sort_ok L Hit) as (b & Hb & Hfb & Hib).
+  destruct (equal_rows_blocks ff rs o s vs h d vs' h d' ls ls bl bl' b b) as (rr & M & M').
+  - apply Forall2_refl. intros b0. split; reflexivity.
+  - exact B.
+  - exact B'.
+  - congruence.
+  - apply combine_same. exact Hb.
+  - apply sch_find_name in Hfb. unfold ty in Hfb. cbn [snd] in Hfb. rewrite Hfb. exact Hex.
+  - destruct (mapM_same _ _ _ _ _ M M' Hib) as (r & Hr & Hr').
+    apply render_fs_head in Hr as (tl & ->). apply render_fs_head in Hr' as (tl' & E). cbn [snd] in E. injection E as E _.
+    assert (In (x, f) (flat_map snd ls)) as Hfl by (apply in_flat_map; eauto).
+    pose proof (unshared_items _ _ _ _ _ _ _ Ri L Ho Un) as Uid.
+    assert (exists V, view_of f = Ok V) as (V & HV).
+    { unfold anchors in A. apply bind_ok in A as (pre & Hpre & _). destruct (mapM_In _ _ _ _ Hpre Hfl) as (y & Hy & _).
+      apply bind_ok in Hy as (p & Hp & _). unfold anchor_prefix in Hp. cbn [snd] in Hp. destruct (view_of f); try discriminate. eauto. }
+    set (pfx := fun star : string => short_name (o_type f)
+                 +++ (match offs f with
+                      | Some _ => "[" +++ int_str (slot f "begin") +++ "-" +++ int_str (slot f "end") +++ "]"
+                      | None => "" end)
+                 +++ star +++ (match V with Some nm => "@" +++ nm | None => "" end)).
+    destruct (anchor_of o _ ls d (x, f) (pfx "*") A Hfl) as (sfx & S & D).
+    { intros it' H1 H2. apply Uid; assumption. }
+    { unfold anchor_prefix. cbn [fst snd]. rewrite HV, Mk, M1. cbn [bind andb]. reflexivity. }
+    destruct (anchor_of o _ ls d' (x, f) (pfx "") A' Hfl) as (sfx' & S' & D').
+    { intros it' H1 H2. apply Uid; assumption. }
+    { unfold anchor_prefix. cbn [fst snd]. rewrite HV, Mk, M2. cbn [bind andb]. reflexivity. }
+    unfold pfx in D, D'.
+    cbn [snd] in D, D'. rewrite D, D' in E. cbn [anchor_pv cell] in E.
+    rewrite !append_assoc in E. apply append_inv_head in E. apply append_inv_head in E.
+    cbn [String.append] in E. destruct V as [nm|]; cbn [String.append] in E.
+    + discriminate.
+    + destruct S' as [->|(k & ->)]; cbn in E; discriminate.
+Qed.
+End Sensitive2.
+
+(* ================================================================================================ I.5 an offset *)
+Definition int_or_none (v : val) : Prop := v = VNone \/ exists z, v = VInt z.
+Lemma int_cell_inj ff rs h d h' d' k k' act act' v v' c :
+  int_or_none v -> int_or_none v' ->
+  (do p <- render_val (S k) h d act v ;; Ok (cell ff rs p)) = Ok c ->
+  (do p <- render_val (S k') h' d' act' v' ;; Ok (cell ff rs p)) = Ok c -> v = v'.
+Proof.
+  intros [->|(z & ->)] [->|(z' & ->)]; cbn; intros H H'; try reflexivity.
+  - exfalso. injection H as <-. injection H' as H'. exact (z2s_not_null _ H').
+  - exfalso. injection H as <-. injection H' as H'. symmetry in H'. exact (z2s_not_null _ H').
+  - injection H as <-. injection H' as H'. apply z2s_inj in H'. congruence.
+Qed.
+
+Section Sensitive3.
+Variable hash : tname -> fsobj -> Z.
+Variable sort : (item -> item -> Z) -> list item -> list item.
+Variable ff : flt -> string.
+Variable rs : string -> string.
+Hypothesis sort_ok : sort_contract sort.
+
+(* C20 render_sensitive (offset): changing begin or end of one listed structure changes the rows, provided begin and end of
+   the listed structures of its type hold integers or None (they are the Integer features of uima.tcas.Annotation) *)
+Theorem sensitive_offset o s vs h found x f ti n z' R :
+  unique_offsets_per_type h found = true ->
+  In x found -> hget h x = Some f -> sch_find s (o_type f) = Some ti ->
+  memb (o_type f) (op_exclude o) = false -> is_array_name (o_type f) = false ->
+  In "begin" (map fd_name (feats_sorted ti)) -> In "end" (map fd_name (feats_sorted ti)) ->
+  (forall y fy, In y found -> hget h y = Some fy -> o_type fy = o_type f ->
+                int_or_none (slot fy "begin") /\ int_or_none (slot fy "end")) ->
+  (n = "begin" \/ n = "end") -> offs (set_slot f n (VInt z')) <> offs f ->
+  rows_of hash sort ff rs o s vs h found = Ok R ->
+  rows_of hash sort ff rs o s vs (hset h x (set_slot f n (VInt z'))) found <> Ok R.
+Proof.
+  intros U Hx Ho Hti Hex Harr Hfb Hfe Typed Hn Hoffs HR HR'.
+  set (g := fun f0 => set_slot f0 n (VInt z')).
+  change (set_slot f n (VInt z')) with (g f) in HR', Hoffs.
+  assert (Gt : forall f0, o_type (g f0) = o_type f0) by reflexivity.
+  destruct (unique_offsets_inv _ _ U) as (items & Ri & K).
+  destruct (rows_of_inv hash sort ff rs _ _ _ _ _ _ HR) as (items0 & ls & d & bl & R0 & L & A & B & ER).
+  rewrite Ri in R0. injection R0 as <-.
+  destruct (rows_of_inv hash sort ff rs _ _ _ _ _ _ HR') as (items' & ls' & d' & bl' & R1 & L' & A' & B' & ER').
+  rewrite (resolve_hset_with h x f g found Ho), Ri in R1. cbn [rmap] in R1. injection R1 as <-.
+  set (upd := upd_with g x) in *.
+  assert (Uf : forall it, fst (upd it) = fst it) by (intros; apply upd_with_fst).
+  assert (Ut : forall it, o_type (snd (upd it)) = o_type (snd it)) by (intros; apply (upd_with_pres o_type); exact Gt).
+  destruct (listing_upd_shape upd Ut hash sort sort_ok s items ls ls' L L') as (F2 & Hcorr).
+  assert (Hit : In (x, f) items) by (eapply found_item; eauto).
+  destruct (listing_has hash sort s items ls (x, f) sort_ok L Hit) as (b & Hb & Hfb' & Hib).
+  unfold ty in Hfb'. cbn [snd] in Hfb'. rewrite Hti in Hfb'. injection Hfb' as Hfb'.
+  destruct (Hcorr b Hb) as (b' & Hc & Efb & Pb').
+  destruct (equal_rows_blocks ff rs o s vs h d vs (hset h x (g f)) d' ls ls' bl bl' b b' F2 B B') as (rr & M & M').
+  - congruence.
+  - exact Hc.
+  - rewrite <- Hfb'. rewrite (sch_find_name _ _ _ Hti). exact Hex.
+  - destruct (mapM_same2 _ _ _ _ _ _ M M' Hib) as (y' & r & Hy' & Hr & Hr').
+    eapply Permutation_in in Hy'; [|exact Pb']. apply in_map_iff in Hy' as (y & Ey & Hy).
+    apply filter_In in Hy as [Hy Hty]. unfold of_type, ty in Hty. apply String.eqb_eq in Hty.
+    rewrite <- Hfb', (sch_find_name _ _ _ Hti) in Hty.
+    rewrite <- Hfb' in Hr, Hr'.
+    assert (o_type (snd y') = o_type f) as Hty' by (rewrite <- Ey, Ut; exact Hty).
+    apply render_fs_nonarray in Hr; [|exact Harr]. apply render_fs_nonarray in Hr'; [|rewrite Hty'; exact Harr].
+    destruct Hr as (ct & cs & Hct & Hcs & ->). destruct Hr' as (ct' & cs' & Hct' & Hcs' & E).
+    cbn [snd] in *. injection E as _ E.
+    assert (List.length cs = List.length cs') as Lc by (apply mapM_length in Hcs, Hcs'; congruence).
+    assert (List.length ct = List.length ct') as Lt.
+    { apply (f_equal (@List.length _)) in E. rewrite !app_length in E. lia. }
+    destruct (app_inv_length _ _ _ _ Lt E) as [_ <-].
+    (* the begin and end cells *)
+    assert (Hslots : slot f "begin" = slot (snd y') "begin" /\ slot f "end" = slot (snd y') "end").
+    { destruct (resolve_spec _ _ _ Ri) as [Hf Hh].
+      assert (Ty' : int_or_none (slot (snd y') "begin") /\ int_or_none (slot (snd y') "end")).
+      { rewrite <- Ey. unfold upd, upd_with. destruct (N.eqb (fst y) x) eqn:Ex; cbn [snd].
+        - assert (In (fst y) found) as Hyf by (rewrite <- Hf; apply in_map; exact Hy).
+          destruct (Typed _ _ Hyf (Hh _ Hy) Hty) as [T1 T2]. unfold g. rewrite !slot_set.
+          destruct Hn as [-> | ->]; cbn [String.eqb Ascii.eqb Bool.eqb]; split; try assumption; right; eauto.
+        - assert (In (fst y) found) as Hyf by (rewrite <- Hf; apply in_map; exact Hy).
+          exact (Typed _ _ Hyf (Hh _ Hy) Hty). }
+      destruct (Typed _ _ Hx Ho eq_refl) as [T1 T2]. destruct Ty' as [T1' T2'].
+      apply in_map_iff in Hfb as (fdb & Eb & Hfdb). apply in_map_iff in Hfe as (fde & Ee & Hfde).
+      destruct (mapM_same _ _ _ _ _ Hcs Hcs' Hfdb) as (cb & H1 & H2). rewrite Eb in H1, H2.
+      destruct (mapM_same _ _ _ _ _ Hcs Hcs' Hfde) as (ce & H3 & H4). rewrite Ee in H3, H4.
+      unfold cellf, fuel_of in *. split; eapply int_cell_inj; eauto. }
+    destruct Hslots as [Sb Se].
+    assert (offs (snd y') = offs f) as Eo by (unfold offs; rewrite <- Sb, <- Se; reflexivity).
+    unfold upd, upd_with in Ey. destruct (N.eqb (fst y) x) eqn:Ex.
+    + apply N.eqb_eq in Ex. destruct (resolve_spec _ _ _ Ri) as [_ Hh]. pose proof (Hh _ Hy) as Hgy. rewrite Ex, Ho in Hgy.
+      injection Hgy as Hgy. rewrite <- Ey in Eo. cbn [snd] in Eo. rewrite <- Hgy in Eo. contradiction.
+    + subst y'. destruct (unique_keysb_spec _ K) as [_ Uq].
+      assert (y = (x, f)) as Eyx by (apply Uq; try assumption; cbn [snd]; try assumption).
+      rewrite Eyx in Ex. cbn in Ex. rewrite N.eqb_refl in Ex. discriminate.
+Qed.
+End Sensitive3.
+
+(* ================================================================================================ I.2 an array element *)
+(* repr of an array element that is not itself an array: a primitive, None, or a reference rendered as an anchor *)
+Definition srepr (ff : flt -> string) (rs : string -> string) (h : heap) (d : adict) (v : val) : option string :=
+  match v with
+  | VNone => Some (rs NULL)
+  | VInt z => Some (z2s z)
+  | VFlt x => Some (ff x)
+  | VBool b => Some (b2s b)
+  | VStr s => Some (rs s)
+  | VRef q => match hget h q with
+              | Some fq => if is_array_name (o_type fq) then None
+                           else Some (match dget (o_id fq) d with Some a => rs a | None => "None" end)
+              | None => None end
+  | _ => None
+  end.
+Lemma srepr_render ff rs h d v c k act : srepr ff rs h d v = Some c ->
+  exists p, render_val (S k) h d act v = Ok p /\ repr_pv ff rs p = c.
+Proof.
+  destruct v; cbn [srepr render_val]; intros H; try discriminate; try (injection H as <-; eexists; split; reflexivity).
+  destruct (hget h o) as [fq|]; [|discriminate]. destruct (is_array_name (o_type fq)); [discriminate|].
+  injection H as <-. eexists. split; [reflexivity|]. destruct (dget (o_id fq) d); reflexivity.
+Qed.
+
+Definition join_pre (l : list string) : string := fold_right (fun s acc => s +++ ", " +++ acc) "" l.
+Definition join_post (l : list string) : string := match l with [] => "" | _ => ", " +++ join_comma l end.
+Lemma join_comma_cons a r : r <> [] -> join_comma (a :: r) = a +++ ", " +++ join_comma r.
+Proof. destruct r; [contradiction|reflexivity]. Qed.
+Lemma join_comma_mid A x B : join_comma (A ++ x :: B) = join_pre A +++ x +++ join_post B.
+Proof.
+  induction A as [|a A IH].
+  - cbn [app join_pre fold_right String.append]. destruct B; cbn [join_comma join_post]; [rewrite append_nil_r|]; reflexivity.
+  - change ((a :: A) ++ x :: B) with (a :: (A ++ x :: B)).
+    rewrite join_comma_cons by (destruct A; discriminate). rewrite IH.
+    change (join_pre (a :: A)) with (a +++ ", " +++ join_pre A). rewrite !append_assoc. reflexivity.
+Qed.
+
+Lemma elems_cell_differ ff rs h d k act pre e e' post r r' c c' :
+  mapM (render_val (S k) h d act) (pre ++ e :: post) = Ok r ->
+  mapM (render_val (S k) h d act) (pre ++ e' :: post) = Ok r' ->
+  srepr ff rs h d e = Some c -> srepr ff rs h d e' = Some c' -> c <> c' ->
+  cell ff rs (PList r) <> cell ff rs (PList r').
+Proof.
+  intros M M' S S' Hne E.
+  apply mapM_app in M as (r1 & r2 & M1 & M2 & ->). apply mapM_app in M' as (r1' & r2' & M1' & M2' & ->).
+  rewrite M1 in M1'. injection M1' as <-.
+  cbn [mapM] in M2, M2'. apply bind_ok in M2 as (p & Hp & M2). apply bind_ok in M2 as (ps & Hps & M2). injection M2 as <-.
+  apply bind_ok in M2' as (p' & Hp' & M2'). apply bind_ok in M2' as (ps' & Hps' & M2'). injection M2' as <-.
+  rewrite Hps in Hps'. injection Hps' as <-.
+  destruct (srepr_render ff rs h d e c k act S) as (q & Hq & Hc). rewrite Hp in Hq. injection Hq as <-.
+  destruct (srepr_render ff rs h d e' c' k act S') as (q' & Hq' & Hc'). rewrite Hp' in Hq'. injection Hq' as <-.
+  cbn [cell repr_pv] in E. apply append_inv_head in E. apply append_inv_tail in E.
+  rewrite !map_app in E. cbn [map] in E. rewrite !join_comma_mid in E. apply append_inv_head in E. apply append_inv_tail in E.
+  congruence.
+Qed.
+
+(* rendering below an array that is being rendered does not look at its elements *)
+Lemma render_val_agree h d a fa fa' : hget h a = Some fa -> o_type fa' = o_type fa -> o_id fa' = o_id fa ->
+  is_array_name (o_type fa) = true ->
+  forall k act v, In a act -> render_val k (hset h a fa') d act v = render_val k h d act v.
+Proof.
+  intros Ha Et Ei Arr. induction k as [|k IH]; intros act v Hin; [reflexivity|]. cbn [render_val].
+  destruct v; try reflexivity.
+  - rewrite hget_hset, Ha. destruct (N.eqb o a) eqn:E.
+    + apply N.eqb_eq in E. subst o. rewrite Ha, Et, Ei, Arr. rewrite (proj2 (memN_In a act) Hin). reflexivity.
+    + destruct (hget h o) as [f|]; [|reflexivity]. destruct (is_array_name (o_type f)); [|reflexivity].
+      destruct (memN o act); [reflexivity|]. destruct (slot f "elements"); try reflexivity.
+      rewrite (mapM_ext_in _ (render_val k h d (o :: act))); [reflexivity|]. intros x _. apply IH. right. exact Hin.
+  - rewrite (mapM_ext_in _ (render_val k h d act)); [reflexivity|]. intros x _. apply IH. exact Hin.
+Qed.
+Lemma srepr_hset ff rs h d x f f' v : hget h x = Some f -> o_type f' = o_type f -> o_id f' = o_id f ->
+  srepr ff rs (hset h x f') d v = srepr ff rs h d v.
+Proof.
+  intros Hx Ht Hi. destruct v; try reflexivity. cbn [srepr]. rewrite hget_hset, Hx.
+  destruct (N.eqb o x) eqn:E; [|reflexivity]. apply N.eqb_eq in E. subst o. rewrite Hx, Ht, Hi. reflexivity.
+Qed.
+
+Lemma render_val_ref_array k h d act o f l : hget h o = Some f -> is_array_name (o_type f) = true ->
+  memN o act = false -> slot f "elements" = VList l ->
+  render_val (S k) h d act (VRef o) = (do r <- mapM (render_val k h d (o :: act)) l ;; Ok (PList r)).
+Proof. intros H A M E. cbn [render_val]. rewrite H, A, M, E. reflexivity. Qed.
+Lemma render_val_list k h d act l :
+  render_val (S k) h d act (VList l) = (do r <- mapM (render_val k h d act) l ;; Ok (PList r)).
+Proof. reflexivity. Qed.
+
+Section Sensitive4.
+Variable hash : tname -> fsobj -> Z.
+Variable sort : (item -> item -> Z) -> list item -> list item.
+Variable ff : flt -> string.
+Variable rs : string -> string.
+Hypothesis sort_ok : sort_contract sort.
+
+(* what the two array-element theorems share: the rows of the listed structure (x, f) before and after the change of the
+   elements of the array a differ as soon as the row of x does *)
+Lemma array_change_rows o s vs h found a fa l' x f R :
+  unique_offsets_per_type h found = true ->
+  hget h a = Some fa -> is_array_name (o_type fa) = true ->
+  In x found -> hget h x = Some f -> memb (o_type f) (op_exclude o) = false ->
+  rows_of hash sort ff rs o s vs h found = Ok R ->
+  rows_of hash sort ff rs o s vs (hset h a (set_slot fa "elements" (VList l'))) found = Ok R ->
+  exists d ti r, anchor_dict hash sort o s vs h found = Ok d /\ sch_find s (o_type f) = Some ti /\
+    render_fs ff rs vs h d ti (isann_of o ti) (x, f) = Ok r /\
+    render_fs ff rs vs (hset h a (set_slot fa "elements" (VList l'))) d ti (isann_of o ti)
+              (upd_with (fun f0 => set_slot f0 "elements" (VList l')) a (x, f)) = Ok r.
+Proof.
+  intros U Ha Arr Hx Ho Hex HR HR'.
+  set (g := fun f0 => set_slot f0 "elements" (VList l')).
+  change (set_slot fa "elements" (VList l')) with (g fa) in *.
+  assert (Gt : forall f0, o_type (g f0) = o_type f0) by reflexivity.
+  assert (Gi : forall f0, o_id (g f0) = o_id f0) by reflexivity.
+  assert (Gs : forall f0 m, m <> "elements" -> slot (g f0) m = slot f0 m).
+  { intros f0 m Hm. unfold g. rewrite slot_set. apply String.eqb_neq in Hm. rewrite Hm. reflexivity. }
+  assert (Gs3 : forall f0 m, (m = "begin" \/ m = "end" \/ m = "sofa") -> slot (g f0) m = slot f0 m).
+  { intros f0 m [->|[->| ->]]; apply Gs; discriminate. }
+  assert (Go : forall f0, offs (g f0) = offs f0) by (intros f0; unfold offs; rewrite !Gs3 by tauto; reflexivity).
+  destruct (unique_offsets_inv _ _ U) as (items & Ri & K).
+  destruct (rows_of_inv hash sort ff rs _ _ _ _ _ _ HR) as (items0 & ls & d & bl & R0 & L & A & B & ER).
+  rewrite Ri in R0. injection R0 as <-.
+  destruct (rows_of_inv hash sort ff rs _ _ _ _ _ _ HR') as (items' & ls' & d' & bl' & R1 & L' & A' & B' & ER').
+  rewrite (resolve_hset_with h a fa g found Ha), Ri in R1. cbn [rmap] in R1. injection R1 as <-.
+  set (upd := upd_with g a) in *.
+  assert (Uf : forall it, fst (upd it) = fst it) by (intros; apply upd_with_fst).
+  assert (Ut : forall it, o_type (snd (upd it)) = o_type (snd it)) by (intros; apply (upd_with_pres o_type); exact Gt).
+  assert (Uk : forall it, offs (snd (upd it)) = offs (snd it)) by (intros; apply (upd_with_pres offs); exact Go).
+  rewrite (listing_upd upd Uf Ut hash sort sort_ok Uk) in L' by (intros t; eapply uniq_group; eauto).
+  rewrite L in L'. cbn [rmap] in L'. injection L' as <-.
+  rewrite (anchors_upd upd) in A'.
+  2:{ intros it. apply anchor_prefix_set; assumption. }
+  2:{ intros it. apply (upd_with_pres o_id). exact Gi. }
+  rewrite A in A'. injection A' as <-.
+  assert (Hit : In (x, f) items) by (eapply found_item; eauto).
+  destruct (listing_has hash sort s items ls (x, f) sort_ok L Hit) as (b & Hb & Hfb & Hib).
+  unfold ty in Hfb. cbn [snd] in Hfb.
+  destruct (equal_rows_blocks ff rs o s vs h d vs (hset h a (g fa)) d ls (map (upd_block upd) ls) bl bl' b (upd_block upd b)) as (rr & M & M').
+  - apply Forall2_map_r. intros b0. split; [reflexivity|]. cbn. rewrite map_length. reflexivity.
+  - exact B.
+  - exact B'.
+  - congruence.
+  - apply combine_map_r. exact Hb.
+  - rewrite (sch_find_name _ _ _ Hfb). exact Hex.
+  - cbn [snd upd_block] in M'. rewrite mapM_map in M'.
+    destruct (mapM_same _ _ _ _ _ M M' Hib) as (r & Hr & Hr').
+    exists d, (fst b), r. split; [|split; [exact Hfb|split; [exact Hr|exact Hr']]].
+    unfold anchor_dict. rewrite Ri. cbn [bind]. rewrite L. exact A.
+Qed.
+
+(* C20 render_sensitive (array element, array held by a feature of a listed structure) *)
+Theorem sensitive_array_element_held o s vs h found x f ti n a fa pre e e' post d c c' R :
+  unique_offsets_per_type h found = true ->
+  In x found -> hget h x = Some f -> x <> a -> sch_find s (o_type f) = Some ti ->
+  memb (o_type f) (op_exclude o) = false -> is_array_name (o_type f) = false ->
+  In n (map fd_name (feats_sorted ti)) -> slot f n = VRef a ->
+  hget h a = Some fa -> is_array_name (o_type fa) = true -> slot fa "elements" = VList (pre ++ e :: post) ->
+  anchor_dict hash sort o s vs h found = Ok d ->
+  srepr ff rs h d e = Some c -> srepr ff rs h d e' = Some c' -> c <> c' ->
+  rows_of hash sort ff rs o s vs h found = Ok R ->
+  rows_of hash sort ff rs o s vs (hset h a (set_slot fa "elements" (VList (pre ++ e' :: post)))) found <> Ok R.
+Proof.
+  intros U Hx Ho Hxa Hti Hex Harr Hn Sn Ha Arr El AD Sc Sc' Hne HR HR'.
+  destruct (array_change_rows o s vs h found a fa _ x f R U Ha Arr Hx Ho Hex HR HR') as (d0 & ti0 & r & AD0 & Hti0 & Hr & Hr').
+  rewrite AD in AD0. injection AD0 as <-. rewrite Hti in Hti0. injection Hti0 as <-.
+  assert (upd_with (fun f0 => set_slot f0 "elements" (VList (pre ++ e' :: post))) a (x, f) = (x, f)) as Eu.
+  { unfold upd_with. cbn [fst]. apply N.eqb_neq in Hxa. rewrite Hxa. reflexivity. }
+  rewrite Eu in Hr'. set (fa' := set_slot fa "elements" (VList (pre ++ e' :: post))) in *.
+  apply render_fs_nonarray in Hr; [|exact Harr]. apply render_fs_nonarray in Hr'; [|exact Harr].
+  destruct Hr as (ct & cs & Hct & Hcs & ->). destruct Hr' as (ct' & cs' & Hct' & Hcs' & E).
+  cbn [snd] in *. injection E as E. rewrite Hct in Hct'. injection Hct' as <-. apply app_inv_head in E. subst cs'.
+  apply in_map_iff in Hn as (fd & Efd & Hfd).
+  destruct (mapM_same _ _ _ _ _ Hcs Hcs' Hfd) as (c0 & H1 & H2). rewrite Efd in H1, H2.
+  unfold cellf, fuel_of in H1, H2. rewrite hset_length in H2. rewrite Sn in H1, H2.
+  assert (slot fa' "elements" = VList (pre ++ e' :: post)) as El'.
+  { unfold fa'. rewrite slot_set. reflexivity. }
+  remember (S (List.length h)) as k eqn:Ek.
+  rewrite (render_val_ref_array k h d [] a fa _ Ha Arr eq_refl El) in H1.
+  rewrite (render_val_ref_array k (hset h a fa') d [] a fa' (pre ++ e' :: post)) in H2;
+    [|rewrite hget_hset, N.eqb_refl, Ha; reflexivity|exact Arr|reflexivity|exact El'].
+  rewrite (mapM_ext_in _ (render_val k h d [a])) in H2.
+  2:{ intros v _. apply (render_val_agree h d a fa fa' Ha eq_refl eq_refl Arr). left. reflexivity. }
+  subst k.
+  apply bind_ok in H1 as (p & Hp & H1). apply bind_ok in Hp as (r1 & Hr1 & Hp). injection Hp as <-.
+  apply bind_ok in H2 as (p' & Hp' & H2). apply bind_ok in Hp' as (r2 & Hr2 & Hp'). injection Hp' as <-.
+  assert (E : cell ff rs (PList r1) = cell ff rs (PList r2)) by (rewrite <- H2 in H1; exact (f_equal (fun r => match r with Ok y => y | _ => "" end) H1)).
+  revert E. eapply elems_cell_differ; eauto.
+Qed.
+
+(* C20 render_sensitive (array element, array listed itself) *)
+Theorem sensitive_array_element_listed o s vs h found a fa pre e e' post d c c' R :
+  unique_offsets_per_type h found = true ->
+  In a found -> hget h a = Some fa -> is_array_name (o_type fa) = true ->
+  memb (o_type fa) (op_exclude o) = false -> slot fa "elements" = VList (pre ++ e :: post) ->
+  anchor_dict hash sort o s vs h found = Ok d ->
+  srepr ff rs h d e = Some c -> srepr ff rs h d e' = Some c' -> c <> c' ->
+  rows_of hash sort ff rs o s vs h found = Ok R ->
+  rows_of hash sort ff rs o s vs (hset h a (set_slot fa "elements" (VList (pre ++ e' :: post)))) found <> Ok R.
+Proof.
+  intros U Hx Ha Arr Hex El AD Sc Sc' Hne HR HR'.
+  destruct (array_change_rows o s vs h found a fa _ a fa R U Ha Arr Hx Ha Hex HR HR') as (d0 & ti & r & AD0 & Hti & Hr & Hr').
+  rewrite AD in AD0. injection AD0 as <-.
+  set (fa' := set_slot fa "elements" (VList (pre ++ e' :: post))) in *.
+  assert (upd_with (fun f0 => set_slot f0 "elements" (VList (pre ++ e' :: post))) a (a, fa) = (a, fa')) as Eu.
+  { unfold upd_with. cbn [fst snd]. rewrite N.eqb_refl. reflexivity. }
+  rewrite Eu in Hr'.
+  apply render_fs_array in Hr; [|exact Arr]. apply render_fs_array in Hr'; [|exact Arr].
+  destruct Hr as (ct & c1 & Hct & Hc1 & ->). destruct Hr' as (ct' & c2 & Hct' & Hc2 & E).
+  cbn [fst snd] in *. injection E as E.
+  assert (forall m, m <> "elements" -> slot fa' m = slot fa m) as Gs.
+  { intros m Hm. unfold fa'. rewrite slot_set. apply String.eqb_neq in Hm. rewrite Hm. reflexivity. }
+  assert (ct_of vs (isann_of o ti) fa' = ct_of vs (isann_of o ti) fa) as Ec.
+  { unfold ct_of, covered, offs. rewrite (Gs "begin"), (Gs "end"), (Gs "sofa") by discriminate. reflexivity. }
+  rewrite Ec, Hct in Hct'. injection Hct' as <-. apply app_inv_head in E. injection E as E.
+  unfold cellf, fuel_of in Hc1, Hc2. rewrite hset_length in Hc2. rewrite El in Hc1.
+  assert (slot fa' "elements" = VList (pre ++ e' :: post)) as El' by (unfold fa'; rewrite slot_set; reflexivity).
+  rewrite El' in Hc2. remember (S (List.length h)) as k eqn:Ek. rewrite render_val_list in Hc1, Hc2.
+  rewrite (mapM_ext_in _ (render_val k h d [a])) in Hc2.
+  2:{ intros v _. apply (render_val_agree h d a fa fa' Ha eq_refl eq_refl Arr). left. reflexivity. }
+  subst k.
+  apply bind_ok in Hc1 as (p & Hp & H1). apply bind_ok in Hp as (r1 & Hr1 & Hp). injection Hp as <-.
+  apply bind_ok in Hc2 as (p' & Hp' & H2). apply bind_ok in Hp' as (r2 & Hr2 & Hp'). injection Hp' as <-.
+  assert (E' : cell ff rs (PList r1) = cell ff rs (PList r2)).
+  { rewrite <- E in H2. rewrite <- H2 in H1. exact (f_equal (fun r => match r with Ok y => y | _ => "" end) H1). }
+  revert E'. eapply elems_cell_differ; eauto.
+Qed.
+End Sensitive4.
